@@ -189,6 +189,48 @@ def check_frames(res, L, rng, tag, reps):
                 d = float((Fr[i] | R[j]).value[0])
                 if abs(d - (1.0 if i == j else 0.0)) > 1e-9 * scale:
                     res.violate('reciprocal frame: a_i | a^j != delta_ij', dict(inp, i=i, j=j), d, 1.0 if i == j else 0.0, dict(site, op='frame-inv'))
+        # frames derived from this one through numpy (slices, reversal, arithmetic, item assignment) after En / inv were used: each is a frame of
+        # ITS vectors (nothing may be remembered from the frame it came from)
+        res.case(('frame-derived', tag, coeffs.tolist()), nontrivial=True)
+        res.count('frame_derived')
+
+        def wedge_(vs):
+            o_ = vs[0]
+            for v_ in vs[1:]:
+                o_ = o_ ^ v_
+            return o_
+        derived = [('slice[:k-1]', lambda: Fr[:k - 1]), ('reversed', lambda: Fr[::-1]), ('2*frame', lambda: 2 * Fr)]
+        for dname, mk in derived:
+            try:
+                G = mk()
+                if not isinstance(G, cf.Frame) or len(G) < 2:
+                    continue          # (frames of one vector: Frame.inv is not defined by the library, see DESIGN section 7)
+                gv = [G[i_] for i_ in range(len(G))]
+                if not common.eq(G.En, wedge_(gv)):
+                    res.violate('En of a frame derived from another frame is not the outer product of its own vectors', dict(inp, derived=dname),
+                                G.En.value.tolist(), wedge_(gv).value.tolist(), dict(site, op='En-derived', derived=dname))
+                    continue
+                if len(G) >= 1 and float(wedge_(gv).mag2()) != 0:
+                    Rg = G.inv
+                    for i_ in range(len(G)):
+                        d_ = float((G[i_] | Rg[i_]).value[0])
+                        if abs(d_ - 1.0) > 1e-9 * (2.0 * scale) ** 2:
+                            res.violate('reciprocal frame of a derived frame: a_i | a^i != 1', dict(inp, derived=dname, i=i_), d_, 1.0, dict(site, op='frame-inv-derived', derived=dname))
+                            break
+            except Exception as e_:
+                res.violate('En / inv of a frame derived from another frame raises', dict(inp, derived=dname), repr(e_)[:200], None,
+                            dict(site, op='frame-derived-raise', derived=dname, error=type(e_).__name__))
+        # item assignment on a frame whose En was read: the volume element follows the new vector
+        try:
+            H = cf.Frame([1 * v_ for v_ in vecs])
+            _ = H.En
+            H[0] = vecs[0] + vecs[-1] + E[0]
+            hv = [H[i_] for i_ in range(len(H))]
+            if not common.eq(H.En, wedge_(hv)):
+                res.violate('En of a frame after item assignment is not the outer product of its current vectors', inp, H.En.value.tolist(), wedge_(hv).value.tolist(),
+                            dict(site, op='En-after-setitem'))
+        except Exception as e_:
+            res.violate('En after item assignment on a frame raises', inp, repr(e_)[:200], None, dict(site, op='En-after-setitem-raise', error=type(e_).__name__))
         # innermorphism: reflect the frame in a basis vector (orthogonal map) -> innermorphic both ways; scale one vector -> not, both ways
         e = E[int(rng.integers(n))]
         ee = int((e * e).value[0])
